@@ -6,8 +6,10 @@
 //!
 //! Spaces (each enumerated completely, simplest first): the repository corpus (every .rssl / DirectX .hlsl under tests,
 //! hlsl/tests, msl/tests and the third-party entry points of tests/external.rs with their defines and include
-//! resolution), resource declaration sequences, declaration kinds (singles and ordered pairs), name clashes over
-//! scopes, identifiers the exporter reserves in every declaring role, depth-2 operator pairs under scalar/vector
+//! resolution), resource declaration sequences, the paths by which a declared type is assembled (array extent /
+//! qualifier / element type on the declarator, the base type, a typedef, a typedef chain, a namespaced typedef, a type
+//! argument) for pipeline resources and in every other declaring or type-naming position, declaration kinds (singles
+//! and ordered pairs), name clashes over scopes, identifiers the exporter reserves in every declaring role, depth-2 operator pairs under scalar/vector
 //! typings, every literal kind over a boundary value list in every position, statement forms nested to depth 2.
 
 use crate::engine::{Acc, Ctx, PanicInfo, Report, Violation, finish, finish_replay, guard, hash_of, one_line, run_par};
@@ -288,6 +290,36 @@ fn paren_or_cast(with: &[(TokKind, &str)], i: usize, other: Option<&str>) -> &'s
     "paren"
 }
 
+const QUALIFIERS: &[&str] = &["const", "volatile", "precise", "row_major", "column_major", "unorm", "snorm", "static", "extern", "groupshared", "inline", "in", "out", "inout", "nointerpolation", "linear", "centroid", "noperspective", "sample"];
+
+/// `with[i]` opens `( X )` directly after `X name =`: a cast to exactly the declared type of the variable being
+/// initialised, i.e. a conversion that can only change qualifiers
+fn cast_to_declared_type(with: &[(TokKind, &str)], i: usize) -> bool {
+    let mut depth = 0usize;
+    let mut close = None;
+    for (j, t) in with.iter().enumerate().skip(i) {
+        match t.1 {
+            "(" => depth += 1,
+            ")" => {
+                depth -= 1;
+                if depth == 0 {
+                    close = Some(j);
+                    break;
+                }
+            }
+            _ => {}
+        }
+    }
+    let c = match close {
+        Some(c) => c,
+        None => return false,
+    };
+    let inner = &with[i + 1..c];
+    let n = inner.len();
+    // `X name = (`
+    n > 0 && i >= n + 2 && with[i - 1].1 == "=" && with[i - 2].0 == TokKind::Ident && &with[i - 2 - n..i - 2] == inner
+}
+
 /// First token of a line, as a class for whole-line differences
 fn line_head_class(line: &str) -> String {
     let t = tokenize(line);
@@ -350,6 +382,9 @@ pub fn diff_class(t1: &str, t2: &str) -> (String, String) {
         _ => return ("truncated".to_string(), ctx),
     };
     let class = match (x.0, y.0) {
+        // one side has a qualifier that the other side simply lacks (the rest continues identically)
+        (TokKind::Ident, _) if QUALIFIERS.contains(&x.1) && a.get(i + 1) == Some(&y) => format!("qualifier-dropped|{}", x.1),
+        (_, TokKind::Ident) if QUALIFIERS.contains(&y.1) && b.get(i + 1) == Some(&x) => format!("qualifier-added|{}", y.1),
         (TokKind::Num, TokKind::Num) => {
             if is_float_spelling(x.1) || is_float_spelling(y.1) {
                 "float-literal".to_string()
@@ -370,15 +405,22 @@ pub fn diff_class(t1: &str, t2: &str) -> (String, String) {
                 "identifier".to_string()
             }
         }
-        _ if x.1 == "(" => paren_or_cast(&a, i, Some(y.1)).to_string(),
-        _ if y.1 == "(" => paren_or_cast(&b, i, Some(x.1)).to_string(),
+        _ if x.1 == "(" => format!("{}{}", paren_or_cast(&a, i, Some(y.1)), if cast_to_declared_type(&a, i) { "|to-declared-type" } else { "" }),
+        _ if y.1 == "(" => format!("{}{}", paren_or_cast(&b, i, Some(x.1)), if cast_to_declared_type(&b, i) { "|to-declared-type" } else { "" }),
         _ if matches!(x.1, "[" | "[[") || matches!(y.1, "[" | "[[") => "attribute".to_string(),
         (TokKind::Num, _) | (_, TokKind::Num) => {
             let n = if x.0 == TokKind::Num { x.1 } else { y.1 };
             if is_float_spelling(n) { "float-literal".to_string() } else { "int-literal".to_string() }
         }
         _ if x.1 == ":" || y.1 == ":" => {
-            if a.get(i + 1).map(|t| t.1) == Some("register") || b.get(i + 1).map(|t| t.1) == Some("register") { "register".to_string() } else { "annotation".to_string() }
+            let reg = |t: &[(TokKind, &str)]| t.get(i).map(|t| t.1) == Some(":") && t.get(i + 1).map(|t| t.1) == Some("register");
+            match (reg(&a), reg(&b)) {
+                // the resource had no binding slot in one of the passes
+                (false, true) => "register|absent-in-first-pass".to_string(),
+                (true, false) => "register|absent-in-second-pass".to_string(),
+                (true, true) => "register".to_string(),
+                _ => "annotation".to_string(),
+            }
         }
         (p, q) => format!("other|{}>{}", kind_name(p), kind_name(q)),
     };
@@ -809,6 +851,194 @@ impl ResSpace {
         }
         s
     }
+}
+
+// ---------------------------------------------------------------------------------------------
+// space 2a': the path by which a declared type is assembled (G-TYPATH). The same variable type can reach the binder and
+// the exporter as different stacks of type layers depending on where the array extent, the qualifier and the element
+// type are written: on the declarator, on the base type, inside a typedef (possibly chained or namespaced), or in a
+// template argument. The exporter always re-declares with a declarator array over the resolved element type, so the
+// emitted text is the "direct" path of the same variable: every path must therefore behave like the direct one.
+// (Added after a seeded change in `assign_api_bindings` that peeled the array layer before the modifier layer was
+// missed: only `typedef T A[2]; A g;` puts the implicit const of an extern variable outside the array layer.)
+
+/// (typedef prelude, declared type, declarator suffix, number of array levels of the declared variable)
+/// `T` = the element type, `A` / `B` = alias names and `M` = a namespace name unique to the declaration
+const TYPE_PATHS: &[(&str, &str, &str, usize)] = &[
+    // one representative per layer stack first
+    ("", "T", "", 0),
+    ("", "T", "[2]", 1),
+    ("typedef T A;\n", "A", "", 0),
+    ("typedef T A;\n", "A", "[2]", 1),
+    ("typedef T A[2];\n", "A", "", 1),
+    ("typedef T A[2];\n", "A", "[3]", 2),
+    ("", "const T", "[2]", 1),
+    ("typedef const T A[2];\n", "A", "", 1),
+    // the rest
+    ("typedef T A[2];\n", "const A", "", 1),
+    ("typedef const T A[2];\n", "const A", "", 1),
+    ("typedef T A;\ntypedef A B[2];\n", "B", "", 1),
+    ("typedef T A[2];\ntypedef A B;\n", "B", "", 1),
+    ("namespace M { typedef T A[2]; }\n", "M::A", "", 1),
+    ("namespace M { typedef T A; }\n", "M::A", "[2]", 1),
+    ("typedef T A[3][2];\n", "A", "", 2),
+    ("typedef T A[2];\ntypedef A B[3];\n", "B", "", 2),
+    ("", "const T", "", 0),
+    ("typedef const T A;\n", "A", "[2]", 1),
+    ("typedef const T A;\n", "const A", "", 0),
+    ("", "extern T", "[2]", 1),
+    ("typedef T A[2];\n", "extern A", "", 1),
+    ("", "T", "[3][2]", 2),
+    ("", "T", "[]", 1),
+    ("typedef T A[2];\n", "A", "[]", 2),
+];
+const TYPE_PATHS_CLASS: usize = 8;
+
+/// (outer type, type argument or "", register letter, has a static sampler initialiser)
+const PATH_ELEMS: &[(&str, &str, char, bool)] = &[
+    // one per allocator class first (same order as RES_KINDS_FULL)
+    ("Texture2D", "", 't', false),
+    ("RWTexture2D", "float4", 'u', false),
+    ("SamplerState", "", 's', false),
+    ("ConstantBuffer", "S", 'b', false),
+    ("BufferAddress", "", 't', false),
+    ("StructuredBuffer", "S", 't', false),
+    ("SamplerState", "", 's', true),
+    ("float4", "", ' ', false),
+    // the other object types
+    ("ByteAddressBuffer", "", 't', false),
+    ("RWByteAddressBuffer", "", 'u', false),
+    ("RWBufferAddress", "", 'u', false),
+    ("StructuredBuffer", "uint", 't', false),
+    ("RWStructuredBuffer", "float4", 'u', false),
+    ("RWStructuredBuffer", "S", 'u', false),
+    ("Buffer", "", 't', false),
+    ("Buffer", "uint2", 't', false),
+    ("RWBuffer", "uint3", 'u', false),
+    ("Texture2D", "float", 't', false),
+    ("Texture2DArray", "float4", 't', false),
+    ("RWTexture2DArray", "float2", 'u', false),
+    ("TextureCube", "float4", 't', false),
+    ("TextureCubeArray", "", 't', false),
+    ("Texture3D", "float4", 't', false),
+    ("RWTexture3D", "uint", 'u', false),
+    ("RaytracingAccelerationStructure", "", 't', false),
+    ("SamplerComparisonState", "", 's', false),
+    // non-object element types (uniforms / plain variables)
+    ("float", "", ' ', false),
+    ("uint", "", ' ', false),
+    ("S", "", ' ', false),
+    ("float3x3", "", ' ', false),
+    ("vector", "float, 3", ' ', false),
+];
+const PATH_ELEMS_CLASS: usize = 8;
+
+/// how the type argument of the element type is written: as is, through a typedef, through a typedef in a namespace
+const TARG_FORMS: usize = 3;
+
+/// where the variable is declared: `$` = `<type> <name><suffix>`, `@` = the declared type as one type name (only for
+/// paths without a declarator suffix). Position 0 is the pipeline resource (built by `path_resource`).
+const PATH_POSITIONS: &[&str] = &[
+    "",
+    "static $;\n",
+    "groupshared $;\n",
+    "cbuffer CbP { $; }\n",
+    "struct W { $; };\nConstantBuffer<W> cw;\nStructuredBuffer<W> sw;\n",
+    "void fp($) {}\n",
+    "void fl() { $; }\n",
+    "void fo(out $) {}\n",
+    "struct W { $; };\nvoid fm(W w) { W v = w; }\n",
+    "namespace NP { $; }\n",
+    "namespace NP { static $; }\n",
+    "template<typename TX> void tf() { TX l; }\nvoid ut() { tf<@>(); }\n",
+    "@ fr(@ p) { return p; }\n",
+    "void fc(@ p) { @ q = (@)p; }\n",
+    "uint fs() { return sizeof(@); }\n",
+    "void fe(@ p) { p[1]; @ q = p; q[1] = p[1]; }\n",
+];
+
+struct PathDecl {
+    /// typedefs that must precede the declaration (at the root)
+    prelude: String,
+    ty: String,
+    suffix: String,
+    levels: usize,
+    elem: String,
+}
+
+/// the typedefs and the declared type of variable number `i`
+fn path_decl(i: usize, elem: usize, targ: usize, path: usize) -> Option<PathDecl> {
+    let (outer, arg, _, _) = PATH_ELEMS[elem];
+    let mut prelude = String::new();
+    let elem_ty = if arg.is_empty() {
+        if targ != 0 {
+            return None; // no type argument to respell: same program as targ == 0
+        }
+        outer.to_string()
+    } else {
+        match targ {
+            0 => format!("{}<{}>", outer, arg),
+            _ if arg.contains(',') => return None, // `vector<float, 3>` has no single type argument
+            1 => {
+                prelude.push_str(&format!("typedef {} Arg{};\n", arg, i));
+                format!("{}<Arg{}>", outer, i)
+            }
+            _ => {
+                prelude.push_str(&format!("namespace AN{} {{ typedef {} Arg; }}\n", i, arg));
+                format!("{}<AN{}::Arg>", outer, i)
+            }
+        }
+    };
+    let (pre, ty, suffix, levels) = TYPE_PATHS[path];
+    let a = format!("Al{}", i);
+    let b = format!("Bl{}", i);
+    let tn = format!("TN{}", i);
+    let sub = |s: &str| subst(s, &[('T', &elem_ty), ('A', &a), ('B', &b), ('M', &tn)]);
+    prelude.push_str(&sub(pre));
+    Some(PathDecl { prelude, ty: sub(ty), suffix: suffix.to_string(), levels, elem: elem_ty })
+}
+
+/// a pipeline resource (extern global) declared through a type path, with an annotation of RES_ANN_FULL
+fn path_resource(i: usize, elem: usize, targ: usize, path: usize, ann: usize, in_ns: bool) -> Option<String> {
+    let d = path_decl(i, elem, targ, path)?;
+    let (_, _, reg, static_sampler) = PATH_ELEMS[elem];
+    let (pre, post) = RES_ANN_FULL[ann];
+    let post = post.replace('R', &reg.to_string());
+    let init = if static_sampler { " = StaticSampler { Filter = MIN_MAG_MIP_LINEAR; AddressU = Clamp; AddressV = Clamp; }" } else { "" };
+    let body = format!("{}{} g{}{}{}{};", pre, d.ty, i, d.suffix, post, init);
+    Some(if in_ns { format!("{}namespace N {{ {} }}\n", d.prelude, body) } else { format!("{}{}\n", d.prelude, body) })
+}
+
+/// a function that copies one element of resource `i` into a local of the element type (a reference through every
+/// array level of the declared variable)
+fn path_use(i: usize, elem: usize, targ: usize, path: usize, in_ns: bool) -> Option<String> {
+    let d = path_decl(i, elem, targ, path)?;
+    let idx = "[1]".repeat(d.levels);
+    Some(format!("void use{}() {{ {} l = {}g{}{}; }}\n", i, d.elem, if in_ns { "N::" } else { "" }, i, idx))
+}
+
+/// a variable of a path-assembled type in declaring position `pos` (not the resource position 0)
+fn path_position(elem: usize, targ: usize, path: usize, pos: usize) -> Option<String> {
+    let d = path_decl(0, elem, targ, path)?;
+    let template = PATH_POSITIONS[pos];
+    if template.contains('@') && !d.suffix.is_empty() {
+        return None; // the position takes a type name, not a declarator
+    }
+    let decl = format!("{} v0{}", d.ty, d.suffix);
+    Some(format!("{}{}{}", RES_PRELUDE, d.prelude, subst(template, &[('$', &decl), ('@', &d.ty)])))
+}
+
+/// (element, type-argument form) combinations that are distinct programs, over the first `n` element types
+fn path_elem_forms(n: usize) -> Vec<(usize, usize)> {
+    let mut v = Vec::new();
+    for e in 0..n {
+        for t in 0..TARG_FORMS {
+            if path_decl(0, e, t, 0).is_some() {
+                v.push((e, t));
+            }
+        }
+    }
+    v
 }
 
 // ---------------------------------------------------------------------------------------------
@@ -1366,6 +1596,81 @@ fn space_sample(acc: &mut Acc, idx: u64, every: u64, space: &str, label: &str, s
     }
 }
 
+/// space 2a': every type path for a pipeline resource, in every other declaring position, and next to ordinary resources
+fn space_type_paths(ctx: &Ctx, rep: &mut Report) {
+    let npaths = TYPE_PATHS.len() as u64;
+    // (i) one resource through every path x element x type-argument form x annotation, alone / followed by a plain
+    // resource of the same element type / additionally read by a function; at the root and inside a namespace
+    let forms = path_elem_forms(PATH_ELEMS.len());
+    let nforms = forms.len() as u64;
+    let nann = ctx.pick(RES_ANN_CLASS, RES_ANN_FULL.len()) as u64;
+    let nns = ctx.pick(1u64, 2u64);
+    rep.cov("type_paths", Json::Int(npaths as i64));
+    rep.cov("type_path_element_forms", Json::Int(nforms as i64));
+    // quick leaves out the resource standing alone: the same declaration followed by a direct one of the same element
+    // type is accepted whenever the lone one is
+    let (nshapes, shape0) = ctx.pick((2u64, 1u64), (3u64, 0u64));
+    let r = run_par(ctx, nforms * npaths * nann * nshapes * nns, 128, |idx, acc| {
+        let mut d = Vec::new();
+        decode(idx, &[npaths, nforms, nann, nshapes, nns], &mut d);
+        let (elem, targ) = forms[d[1] as usize];
+        let (path, ann, shape, in_ns) = (d[0] as usize, d[2] as usize, d[3] + shape0, d[4] == 1);
+        let mut src = String::from(RES_PRELUDE);
+        src.push_str(&path_resource(0, elem, targ, path, ann, in_ns).unwrap_or_default());
+        if shape >= 1 {
+            src.push_str(&path_resource(1, elem, 0, 0, 0, false).unwrap_or_default());
+        }
+        if shape >= 2 {
+            src.push_str(&path_use(0, elem, targ, path, in_ns).unwrap_or_default());
+        }
+        let v = check_src("resource type path", &src, acc);
+        if matches!(v, Verdict::Held) && shape >= 1 {
+            acc.count(&format!("type_path_resource_fixpoints:path{}", path));
+        }
+        space_sample(acc, idx, 2003, "type_paths_resource", TYPE_PATHS[path].0, &src, &v);
+    });
+    rep.absorb("type_paths_resource", r);
+    // (ii) the same paths in every other declaring position
+    // (quick: type arguments as written only)
+    let pforms: Vec<(usize, usize)> = if ctx.quick() { forms.iter().copied().filter(|f| f.1 == 0).collect() } else { forms.clone() };
+    let npf = pforms.len() as u64;
+    let npos = PATH_POSITIONS.len() as u64 - 1;
+    let r = run_par(ctx, npf * npaths * npos, 128, |idx, acc| {
+        let mut d = Vec::new();
+        decode(idx, &[npaths, npf, npos], &mut d);
+        let (elem, targ) = pforms[d[1] as usize];
+        let src = match path_position(elem, targ, d[0] as usize, d[2] as usize + 1) {
+            Some(s) => s,
+            None => {
+                acc.count("type_path_position_not_applicable");
+                return;
+            }
+        };
+        let v = check_src("type path in position", &src, acc);
+        space_sample(acc, idx, 2003, "type_paths_positions", PATH_POSITIONS[d[2] as usize + 1], &src, &v);
+    });
+    rep.absorb("type_paths_positions", r);
+    // (iii) a path-declared resource followed by / preceded by a resource of the ordinary generator: later slots
+    // must not move, earlier slots must be counted
+    let cforms = path_elem_forms(PATH_ELEMS_CLASS);
+    let cforms: Vec<(usize, usize)> = if ctx.quick() { cforms.into_iter().filter(|f| f.1 == 0).collect() } else { cforms };
+    let ncf = cforms.len() as u64;
+    let np2 = ctx.pick(TYPE_PATHS_CLASS, TYPE_PATHS.len()) as u64;
+    let na1 = RES_ANN_SMALL as u64;
+    let (k2, a2, r2) = if ctx.quick() { (RES_KINDS_CLASS as u64, RES_ANN_SMALL as u64, 1u64) } else { (RES_KINDS_CLASS as u64, RES_ANN_CLASS as u64, 2u64) };
+    let r = run_par(ctx, np2 * ncf * na1 * k2 * a2 * r2 * 2, 256, |idx, acc| {
+        let mut d = Vec::new();
+        decode(idx, &[np2, ncf, na1, k2, a2, r2, 2], &mut d);
+        let (elem, targ) = cforms[d[1] as usize];
+        let pathed = path_resource(0, elem, targ, d[0] as usize, d[2] as usize, false).unwrap_or_default();
+        let plain = res_decl(1, d[3] as usize, d[4] as usize, d[5] as usize, false);
+        let src = if d[6] == 0 { format!("{}{}{}", RES_PRELUDE, pathed, plain) } else { format!("{}{}{}", RES_PRELUDE, plain, pathed) };
+        let v = check_src("resource type path pair", &src, acc);
+        space_sample(acc, idx, 20011, "type_paths_pairs", TYPE_PATHS[d[0] as usize].0, &src, &v);
+    });
+    rep.absorb("type_paths_pairs", r);
+}
+
 pub fn run(ctx: &Ctx) -> i32 {
     let mut rep = Report::new("exploration");
     rep.rule = "every program is compiled for HlslForDirectX in no-pipeline mode; non-trivial = accepted by the front end and exported (the fixpoint oracle then ran on it); distinct = different emitted text T1".into();
@@ -1409,6 +1714,9 @@ pub fn run(ctx: &Ctx) -> i32 {
         });
         rep.absorb(name, r);
     }
+
+    // ---- 2a': type paths
+    space_type_paths(ctx, &mut rep);
 
     // ---- 2b: declaration kinds, singles and ordered pairs
     let nd = DECLS.len() as u64;
@@ -1595,6 +1903,10 @@ pub fn run(ctx: &Ctx) -> i32 {
         obj(vec![
             ("passes", Json::Int(3)),
             ("resource_sequence_length", Json::Int(3)),
+            ("type_paths", Json::Int(TYPE_PATHS.len() as i64)),
+            ("type_path_element_types", Json::Int(PATH_ELEMS.len() as i64)),
+            ("type_path_positions", Json::Int(PATH_POSITIONS.len() as i64)),
+            ("type_path_array_levels", Json::Int(2)),
             ("declaration_snippets", Json::Int(DECLS.len() as i64)),
             ("declaration_combination", "singles and all ordered pairs (namespaces shared and not shared)".into()),
             ("clash_entities", Json::Int(ENTITY_KINDS.len() as i64)),
@@ -1610,6 +1922,7 @@ pub fn run(ctx: &Ctx) -> i32 {
         "BufferAddress / RWBufferAddress are emitted as ByteAddressBuffer / RWByteAddressBuffer for DirectX by design, so the re-read descriptor type is the byte-buffer type on the same slot; the two are identified".into(),
         "programs the front end rejects, and programs on which the first compilation panics (totality is C08), are outside the property and only counted".into(),
         "inputs containing Pipeline blocks occur only in the corpus and are compared in no-pipeline mode; generated programs contain none".into(),
+        "type paths: array extents are 2 and 3, at most two array levels and two typedef links; a path that the front end rejects for an element type or position (objects in cbuffers, unsized typedef arrays, ...) is outside the property and only counted".into(),
         "the classification of the first differing token uses a small tokenizer of emitted HLSL (no comments, no directives occur in formatter output)".into(),
     ];
     finish(ctx, rep)
